@@ -46,7 +46,9 @@ def run(ctx):
   ctx.borrow(c17.rule_byvalue, "R-C07-NEIGHBOUR")
   from . import c16
   c16.rule_isolated(ctx, T.bodies(ctx.repo), "R-C07-NEIGHBOUR")
-  ctx.expect("R-C07-NEIGHBOUR", 2 + 24, "BatchGCD element-wise + per-curve partitions + one fresh entry per artifact in 24 Check bodies")
+  from . import c02
+  ctx.borrow(c02.rule_codec, "R-C07-NEIGHBOUR")      # ExtendedBatchDL: a log found for point i is reported for point i
+  ctx.expect("R-C07-NEIGHBOUR", 2 + 24 + 2, "BatchGCD element-wise + per-curve partitions + one fresh entry per artifact in 24 Check bodies")
   ctx.expect("R-C07-BOUNDS", 7, "seven thresholds")
   ctx.expect("R-C07-EXACT", 29, "29 registered checks")
 
